@@ -17,7 +17,7 @@ CORE_PROPS = ["C01", "C02", "C03", "C04", "C05", "C06", "C07", "C08", "C11", "C1
 MUST_HIT = {
     "C01": ["C01.r1", "C01.r2", "C01.r3"],
     "C02": ["C02.r1", "C02.r2", "C02.r3", "C02.r4"],
-    "C03": ["C03.r1", "C03.r2"],
+    "C03": ["C03.r1", "C03.r2", "C03.r3"],
     "C04": ["C04.r1", "C04.r2", "C04.r3", "C04.r4", "C04.r5", "C04.r6", "C04.r8"],
     "C05": ["C05.r1", "C05.r2", "C05.r4", "C05.r5"],
     "C06": ["C06.r1", "C01.r1", "C01.r3"],
